@@ -927,3 +927,10 @@ V('c19-toyaml-str-subclass', 'C19', 'C19.R14',
 V('c19-toyaml-cimfloat-object', 'C19', 'C19.R14',
   ('pywbem/_recorder.py', "        if isinstance(obj, CIMFloat):\n            return float(obj)", "        if isinstance(obj, CIMFloat):\n            return obj"),
   'not-yaml-plain')
+V('c07-classpath-colon-by-format-list', 'C07', 'C07.R9',
+  ('pywbem/_cim_obj.py', "        if self.namespace is not None or format != 'historical':\n            ret.append(':')\n\n        ret.append(case(self.classname))\n\n        return _ensure_unicode(''.join(ret))", "        if self.namespace is not None or format in ('standard', 'cimobject'):\n            ret.append(':')\n\n        ret.append(case(self.classname))\n\n        return _ensure_unicode(''.join(ret))"),
+  'prefix-not-parsed')
+V('c07-cimobject-keeps-host', 'C07', 'C07.R9',
+  ('pywbem/_cim_obj.py', "        if self.host is not None and format != 'cimobject':\n            # The CIMObject format assumes there is no host component\n            ret.append('//')\n            ret.append(case(self.host))\n\n        if self.host is not None or format not in ('cimobject', 'historical'):\n            ret.append('/')\n\n        if self.namespace is not None:\n            ret.append(case(self.namespace))\n\n        if self.namespace is not None or format != 'historical':\n            ret.append(':')\n\n        ret.append(case(self.classname))\n\n        return",
+   "        if self.host is not None and format != 'cimobject':\n            # The CIMObject format assumes there is no host component\n            ret.append('//')\n            ret.append(case(self.host))\n\n        if self.host is not None and format not in ('cimobject', 'historical'):\n            ret.append('/')\n\n        if self.namespace is not None:\n            ret.append(case(self.namespace))\n\n        if self.namespace is not None or format != 'historical':\n            ret.append(':')\n\n        ret.append(case(self.classname))\n\n        return"),
+  'prefix-not-parsed')
